@@ -358,6 +358,7 @@ func translate(repo string) (out string, err error) {
 	b.WriteString("/-\n  GENERATED by /verif/tools/c14facts from graphql/validator/validate_cost.go of the repository under\n  check — do not edit; regenerated at the start of every `./check C14` (pre_cmds of checks/C14.json).\n")
 	b.WriteString("  Literal translation of straight-line Go integer code: every arithmetic result is wrapped to 64 bits\n  (`wrap64`), `/` is truncated division guarded by an explicit divide-by-zero panic branch (`none`).\n-/\n")
 	b.WriteString("import ApiFu.C14.Go\n\nnamespace ApiFu.C14.Generated\nopen ApiFu.C14\n\n")
+	var translated bytes.Buffer
 	for _, name := range wanted {
 		var fd *ast.FuncDecl
 		for _, d := range file.Decls {
@@ -392,6 +393,7 @@ func translate(repo string) (out string, err error) {
 		}
 		var sb bytes.Buffer
 		printer.Fprint(&sb, fset, fd)
+		translated.Write(sb.Bytes())
 		b.WriteString("/- Go source:\n")
 		for _, l := range strings.Split(sb.String(), "\n") {
 			b.WriteString("    " + strings.ReplaceAll(l, "-/", "- /") + "\n")
@@ -414,8 +416,8 @@ func translate(repo string) (out string, err error) {
 		}
 		fmt.Fprintf(&b, "def %s : Int := %s\n", cn, obj.Val().ExactString())
 	}
-	h := sha256.Sum256(src)
-	fmt.Fprintf(&b, "\n/-- sha256 of the translated source file (evidence only). -/\ndef sourceSha256 : String := %q\n", hex.EncodeToString(h[:]))
+	h := sha256.Sum256(translated.Bytes())
+	fmt.Fprintf(&b, "\n/-- sha256 of the source text of the translated functions (evidence only). -/\ndef sourceSha256 : String := %q\n", hex.EncodeToString(h[:]))
 	b.WriteString("\nend ApiFu.C14.Generated\n")
 	return b.String(), nil
 }
